@@ -343,12 +343,21 @@ def run(prog, rep, tier='quick'):
             N, h = sizes(parity)
             C.nfft(parity, half=half)
             x = base_array('X', h if s == 'onesided' else N)
+            x.intdt = True          # the helpers are documented on integer lists: the input may be integer typed
             v, itp = C.run_function(prog, 'tools', fname, [x], {})
             n_tools += 1
             label = '%s [NFFT %s%s]' % (fname, parity, hl)
             where = loc(f.mod, f.node)
             if blocked(rep, 'tools-helper', f.qname, label, itp):
                 continue
+            for e_ in [e_ for e_ in itp.events if e_[0] == 'int-store' and (e_[2] == f.qname or e_[2].startswith('tools.'))]:
+                k_ = ('int-store', e_[2], normalise(e_[1]))
+                if k_ not in seen_mut:
+                    seen_mut.add(k_)
+                    rep.violation('tools-helper', e_[2], 'integer input: %s' % normalise(e_[1])[:60], 'a quotient is stored back into a '
+                                  'buffer that still has the (integer) dtype of the input: for integer PSD values (lists, counts) the '
+                                  'halved bin is truncated, so the conversion loses power and does not round-trip [%s]' % label,
+                                  loc(f.mod, e_[1]))
             n_mut += 1
             if check_no_mutation(rep, itp, f.qname, label, where, seen_mut):
                 rep.proved('no-input-mutation', f.qname, label, 'the input array is not written', where)
